@@ -3,9 +3,9 @@ CONSTANTS
   Kinds <- KindsQ
   Alpha <- AlphaQ
   MaxMsg = 4
-  Caps <- CapsQ
+  Caps <- CapsZ
   Grows <- GrowsQ
-  Pres <- PresQ
+  Pres <- PresG
   CapMax = 8
 CONSTRAINT Bound
 VIEW Skel
